@@ -598,6 +598,13 @@ def _identity_check_loop(body, arr):
                 continue
             if not _is_exhaustion_branch(body, b):
                 problems.append("the checking loop can be left early (not through exhaustion of the pointer array): later duplicates are not compared")
+            else:
+                # the iterator that is exhausted must walk the whole array: no take_while / skip / take / filter / step_by in its type
+                d = body.single_def(body.single_def(body.term(b)["discr"]["p"]["l"])[3]["rv"]["p"]["l"])
+                st = (d[3]["f"].get("self_ty") or {}).get("s", "") if d and d[0] == "call" else ""
+                for ad in ("TakeWhile", "SkipWhile", "Skip<", "Take<", "Filter", "StepBy", "MapWhile", "Rev<"):
+                    if ad in st:
+                        problems.append("the checking loop iterates `%s`, which does not visit every element of the pointer array: duplicates after the cut-off are not compared" % st[:80])
     return h, blocks, problems
 
 
